@@ -4,7 +4,7 @@ log=$1; shift
 ALL="C01 C02 C03 C04 C05 C06 C07 C08 C09 C10 C11 C12 C13 C14 C15"
 for c in "$@"; do
   for v in a b; do
-    p=/tmp/seed/$c/OUT/$v/patch.diff
+    p=${SEEDROOT:-/tmp/seed}/$c/OUT/$v/patch.diff
     [ -f "$p" ] || { echo "RESULT $c$v no-patch" >> "$log"; continue; }
     props="$ALL"
     case $c in C16) props="C16 C13";; C17) props="C17 C14 C08";; C18) props="C18";; esac
